@@ -34,7 +34,17 @@ STAT = "wannierberri/calculators/static.py"
 DYN = "wannierberri/calculators/dynamic.py"
 COV = "wannierberri/formula/covariant.py"
 TABC = "wannierberri/calculators/tabulate.py"
+TBPY = "wannierberri/system/system_tb_py.py"
 MUTANTS = [
+    dict(prop="C32", name="pythtb: h.c. partner without conjugation", file=TBPY, old="                Ham_R[inR, j, i] += np.conjugate(amplitude)", new="                Ham_R[inR, j, i] += amplitude"),
+    dict(prop="C32", name="pythtb: partner placed at +R", file=TBPY, old="                Ham_R[inR, j, i] += np.conjugate(amplitude)", new="                Ham_R[iR, j, i] += np.conjugate(amplitude)"),
+    dict(prop="C32", name="pythtb: repeated hops overwrite", file=TBPY, old="                Ham_R[iR, i, j] += amplitude\n", new="                Ham_R[iR, i, j] = amplitude\n"),
+    dict(prop="C32", name="pythtb spinful: partner block not transposed", file=TBPY, old="Ham_R[inR, 2 * j:2 * j + 2, 2 * i:2 * i + 2] += np.conjugate(amplitude.T)", new="Ham_R[inR, 2 * j:2 * j + 2, 2 * i:2 * i + 2] += np.conjugate(amplitude)"),
+    dict(prop="C32", name="tbmodels: partner block not transposed", file=TBPY, old="            Ham_R[inR] += np.conjugate(hops.T)", new="            Ham_R[inR] += np.conjugate(hops)"),
+    dict(prop="C32", expect="ok", name="PRESERVING (for this property): centres not reduced to the home cell", file=TBPY, old="    wannier_centers_red = positions % 1.0\n", new="    wannier_centers_red = positions * 1.0\n"),
+    dict(prop="C32", name="centres scaled", file=TBPY, old="    wannier_centers_red = positions % 1.0\n", new="    wannier_centers_red = (positions * 0.5) % 1.0\n"),
+    dict(prop="C32", name="on-site energies of the wrong orbital (spinless)", file=TBPY, old="                Ham_R[index0, i, i] = model._site_energies[i]", new="                Ham_R[index0, i, i] = model._site_energies[norb_loc - 1 - i]"),
+    dict(prop="C32", name="PRESERVING: on-site via += on the zero diagonal", file=TBPY, old="                Ham_R[index0, i, i] = model._site_energies[i]", new="                Ham_R[index0, i, i] += model._site_energies[i]", expect="ok"),
     dict(prop="C08", name="Morb_H declared even under TR", file=COV, old="        self.E = data_K.E_K\n        self.ndim = 1\n        self.transformTR = transform_odd", new="        self.E = data_K.E_K\n        self.ndim = 1\n        self.transformTR = transform_ident"),
     dict(prop="C08", name="Der3E declared even under inversion", file=COV, old="        self.ndim = 3\n        self.transformTR = transform_odd\n        self.transformInv = transform_odd", new="        self.ndim = 3\n        self.transformTR = transform_odd\n        self.transformInv = transform_ident"),
     dict(prop="C08", name="get_transform_TR: SS even", file=DK, old="    elif name in ['CC', 'FF', 'OO', 'GG', 'SS', 'rotAA', 'rotAAab', 'CCab_antisym']:  # odd before derivative\n        p = 1", new="    elif name in ['CC', 'FF', 'OO', 'GG', 'rotAA', 'rotAAab', 'CCab_antisym']:  # odd before derivative\n        p = 1\n    elif name in ['SS']:\n        p = 0"),
